@@ -281,6 +281,8 @@ def run(facts, rep, ctx):
     if ser is None or par is None or not ser.pub or not par.pub:
         rep.inconc(R1, "anchors TextArchive::serialize / from_archive missing")
         return
+    R5 = rep.rule("R06.5", "the empty archive serializes: an empty text image is never handed to a positional write that rejects it", floor=1)
+    empty_image_rule(facts, rep, R5, ser)
     fadt = facts.adts.get(FMT)
     if not fadt:
         rep.inconc(R1, "TextArchiveFormat ADT missing")
@@ -546,3 +548,79 @@ def label_rules(facts, rep, R3, ser, par):
         rep.violation(R3, par.name, "reader-bound", "the message loop is not bounded by cursor < archive size", "%s:%s" % (par.file, par.line))
     else:
         rep.ok(R3, {"fn": par.name, "order": "read_labels -> read message -> insert(first label, message)"})
+
+
+def empty_image_rule(facts, rep, R5, ser):
+    """TextArchive::serialize must succeed for the empty archive of either format.  With no title (legacy format)
+    and no entries the text image is empty; a positional write of that empty image is only fine if the accessor
+    accepts (address == size, length 0).  Read off the paths of serialize: a path on which nothing was appended to
+    the image before it is handed to a BinArchive write, combined with that accessor's own decision at
+    (size 0, address 0, length 0)."""
+    from summ import Evaluator, Ref, Unknown, Panic
+    from c04 import final_outcomes
+    try:
+        paths = enum_paths(ser, max_paths=6000)
+    except PathLimit:
+        rep.inconc(R5, "serialize: too many paths")
+        return
+    E = Evaluator(facts)
+    verdict = None
+    n_empty_paths = 0
+    for p in paths:
+        writes = [e for e in p.events if e["k"] == "call" and e["callee"] and e["callee"].startswith("mila::bin_archive::BinArchive::write_bytes")]
+        if not writes:
+            continue
+        w = writes[0]
+        src = strip_refs(w["args"][2]) if len(w["args"]) > 2 else None
+        if src is None:
+            continue
+        # the image buffer: the local whose slice is written
+        roots = [x for x in walk(src) if x[0] == "var"]
+        appended = False
+        for e in p.events:
+            if e is w:
+                break
+            if e["k"] == "call" and e["callee"] and e["args"]:
+                sh = e["callee"].rsplit("::", 1)[-1]
+                a0 = e["args"][0]
+                if a0[0] == "ref" and a0[2] and (sh in ("push", "extend", "extend_from_slice", "append", "resize", "insert") or e["callee"].startswith("mila::text_archive::write_")):
+                    appended = True
+        if appended:
+            continue
+        # ... unless the path tested the image and found it non-empty (then it is not the empty image's path)
+        nonempty = False
+        order = {bb: i for i, bb in enumerate(p.blocks)}
+        for (bb, term, vals, neg, dty) in p.conds:
+            if order.get(bb, 0) > order.get(w["bb"], 1 << 30):
+                continue
+            ct = cond_truth((term, vals, neg, dty))
+            if not ct:
+                continue
+            t_, truth = ct
+            while t_[0] == "un" and t_[1] == "Not":
+                t_, truth = t_[2], not truth
+            if t_[0] == "call" and t_[1].rsplit("::", 1)[-1] == "is_empty" and not truth:
+                nonempty = True
+            if t_[0] == "bin" and t_[3][:2] == ("const", 0) and any(x[0] == "call" and x[1].rsplit("::", 1)[-1] == "len" for x in walk(t_[2])):
+                if (t_[1] in ("Ne", "Gt") and truth) or (t_[1] in ("Eq", "Le") and not truth):
+                    nonempty = True
+        if nonempty:
+            continue
+        n_empty_paths += 1
+        cb = facts.body(w["callee"])
+        if cb is None:
+            continue
+        try:
+            outs = final_outcomes(E, facts, cb, [Ref({"data": {"len": 0}}), 0, Ref({"len": 0})])
+        except (Unknown, Panic) as u:
+            rep.inconc(R5, "write_bytes at (size 0, address 0, length 0) not evaluable: %s" % u)
+            return
+        if outs and all((o["err"] is True or o["panic"]) and o["definite"] for o in outs):
+            verdict = "%s:%s" % (ser.file, w["line"])
+    if verdict:
+        rep.violation(R5, ser.name, "empty-image-write", "serialize hands an empty text image (no title, no entries: the empty legacy-format archive) to BinArchive::write_bytes(0, ..), which rejects address 0 of an empty data region: the empty archive cannot be serialized", verdict)
+    elif n_empty_paths:
+        rep.ok(R5, {"fn": ser.name, "empty_image": "the positional write accepts it"})
+    else:
+        rep.ok(R5, {"fn": ser.name, "empty_image": "no path writes an image that received no bytes"})
+
